@@ -313,6 +313,20 @@ pub fn plan(tier: Tier) -> Plan {
             }
         }));
     }
+    // (d2) label family: every byte as the label of a single-transition node
+    for part in 0..8usize {
+        p.units.push(unit("label-family-all-256-bytes", format!("labels part {}", part), move |st, rep| {
+            for (i, (_, kvs)) in label_family().into_iter().enumerate() {
+                if i % 8 != part {
+                    continue;
+                }
+                st.nontrivial += (kvs.len() >= 2) as u64;
+                st.count("label_cases", 1);
+                do_case(&kvs, Front::RawInsert, (2, 2), true, st, rep);
+                do_case(&kvs, Front::MapInsert, DEFAULT_GEOM, false, st, rep);
+            }
+        }));
+    }
     // (e) size families (thorough): 2-, 3- and 4-byte address deltas
     if thorough {
         for n in [3_000u64, 70_000, 1_200_000] {
